@@ -13,18 +13,17 @@ open H2V H2V.Model H2V.Model.Conn H2V.Lemmas.Comp
 syntax "safe_peel" : tactic
 macro_rules | `(tactic| safe_peel) => `(tactic| fail "safe_peel: no rule applies")
 
-set_option hygiene false in
-/-- inside an induction on fuel: the hypothesis must be called `ih` -/
-macro "apply_ih" : tactic => `(tactic| with_reducible apply ih)
+theorem SafeInvG.of_fst_eq {α : Type} {g : Int} {p : Streams × α} {t' : Streams} {r : α} (he : p = (t', r))
+    (h : SafeInvG g p.1) : SafeInvG g t' := by
+  subst he; exact h
 
 /-- close the goal `SafeInvG g X`, peel a flow function, or peel a frame primitive -/
 macro "safe_step" : tactic => `(tactic| first
   | with_reducible assumption
   | safe_peel
   | apply_ih
-  | (with_reducible refine SafeInvG.fr (Fr.qPop_eq (by assumption) (Fr.refl _)) ?_)
-  | (with_reducible refine SafeInvG.fr (Fr.qPush_eq (by assumption) (Fr.refl _)) ?_)
-  | (with_reducible apply SafeInvG.fr; (· fr_peel; with_reducible exact Fr.refl _)))
+  | (with_reducible apply SafeInvG.fr; (· fr_peel; with_reducible exact Fr.refl _))
+  | (with_reducible apply SafeInvG.of_fst_eq; (· with_reducible assumption)))
 
 macro "safe_auto" : tactic => `(tactic| repeat' (first | safe_step | split))
 
